@@ -194,6 +194,94 @@ def main():
                         break
             if bad:
                 rac.fail(key, f"C12 {name} ({route}): {bad}", scr, "AttrDict")
+    rac.section("used+cross-process", "(a) a manager on which the read-only entry points were USED before it is pickled (gen_fun, mk_fun, find_deps, dump, "
+                "verify, clone, copy, a failed frozen assignment): pickling succeeds and the restored manager follows mirrored assignments; (b) a manager "
+                "pickled by one interpreter and restored by ANOTHER with a different string-hash seed (PYTHONHASHSEED 1 -> 2), then assigned to: "
+                "equal to a manager built afresh in the restoring interpreter", "8 prior uses; 3 managers across two processes")
+    US = '''
+import xdeps, pickle
+def mku():
+    d = dict(a=1.0, b=2.0, c=0.0, e=0.0, n=dict(x=1.0, y=0.0), l=[1.0, 2.0])
+    m = xdeps.Manager(); r = m.ref(d, "d")
+    r["c"] = r["a"] * 2 + r["b"]; r["n"]["y"] = r["n"]["x"] + r["c"]; r["e"] = abs(r["l"][0] - r["c"]); r["l"][1] = r["a"] + 1
+    return d, m, r
+FOLLOW = ["r['a'] = 4.0", "r['n']['x'] = -2.0", "r['l'][0] = 9.0", "r['b'] = r['a'] * 3", "r['a'] = 0.5"]
+'''
+    uenv = {}
+    exec(US, uenv)
+    uses = {"gen_fun": "f = m.gen_fun('setter', x=r['a'], y=r['b']); f(2.0, 3.0)", "mk_fun": "m.mk_fun('s', x=r['a'])", "find_deps": "m.find_deps([r['a']])",
+            "dump+verify": "m.dump(); m.verify()", "clone+copy": "m.clone(); m.copy()",
+            "frozen assignment refused": "m.freeze_tree()\ntry:\n    r['e'] = r['a'] + 1\nexcept ValueError:\n    pass\nm.unfreeze_tree()",
+            "gen_fun twice": "m.gen_fun('s1', x=r['a'])(1.5); m.gen_fun('s1', x=r['a'])(2.5); m.gen_fun('s2', y=r['n']['x'])(0.25)",
+            "tasks run by hand": "m.run_tasks(); m.find_tasks()"}
+    for uname, use in uses.items():
+        body = (f"d, m, r = mku()\n{use}\nm2 = pickle.loads(pickle.dumps(m))\nr2 = m2.containers['d']; d2 = r2._owner\nassert d2 == d and d2 is not d\n"
+                "for st in FOLLOW:\n    exec(st, dict(r=r)); exec(st, dict(r=r2))\n    assert d == d2, (st, d, d2)\n")
+        rac.case(("used", uname), sample=dict(used_before_pickling=uname))
+        try:
+            d, m, r = uenv["mku"]()
+            exec(use, dict(m=m, r=r))
+            m2 = pickle.loads(pickle.dumps(m))
+            r2 = m2.containers["d"]
+            d2 = r2._owner
+            bad = None if (d2 == d and d2 is not d) else f"restored data {d2} vs {d}"
+            for st in uenv["FOLLOW"]:
+                if bad:
+                    break
+                exec(st, dict(r=r))
+                exec(st, dict(r=r2))
+                if d != d2:
+                    bad = f"after {st} on both: original {d}, restored {d2}"
+            if bad:
+                rac.fail(f"used {uname}", f"C12 manager used before pickling ({uname}): {bad}", PRELUDE + US + body, "Manager")
+        except Exception as ex:     # noqa
+            rac.fail(f"used {uname}", f"C12 manager used before pickling ({uname}): {type(ex).__name__}: {ex}", PRELUDE + US + body, "Manager")
+    import subprocess
+    import tempfile
+    XP = US + '''
+import sys
+def mkx(kind):
+    d, m, r = mku()
+    if kind == "attr":
+        m = xdeps.Manager(); r = m.ref(label="d")           # the library's own container, attribute style
+        r.a = 1.0; r.b = 2.0; r.c = r.a * 2 + r.b; r.e = abs(r.c - r.b)
+        d = r._owner
+    if kind == "used":
+        m.find_deps([r["a"]]); r["a"] = 1.25
+    return d, m, r
+FOLLOWX = {"dict": FOLLOW, "used": FOLLOW, "attr": ["r.a = 4.0", "r.b = r.a * 3", "r.a = 0.5"]}
+kind, path, role = sys.argv[1], sys.argv[2], sys.argv[3]
+if role == "dump":
+    d, m, r = mkx(kind)
+    pickle.dump(m, open(path, "wb"))
+else:
+    m2 = pickle.load(open(path, "rb")); r2 = m2.containers["d"]; d2 = r2._owner
+    d, m, r = mkx(kind)
+    assert dict(d2) == dict(d), ("restored data", d2, d)
+    for st in FOLLOWX[kind]:
+        exec(st, dict(r=r)); exec(st, dict(r=r2))
+        assert dict(d) == dict(d2), (st, "built here", dict(d), "restored from the other interpreter", dict(d2))
+    m2.verify()
+    print("ok")
+'''
+    for kind in ("dict", "attr", "used"):
+        rac.case(("cross-process", kind), sample=dict(manager=kind, seeds=(1, 2)))
+        with tempfile.TemporaryDirectory() as td:
+            sp, pk = os.path.join(td, "xp.py"), os.path.join(td, "m.pkl")
+            open(sp, "w").write(XP)
+            outs = []
+            for role, seed in (("dump", "1"), ("load", "2")):
+                p = subprocess.run([sys.executable, sp, kind, pk, role], capture_output=True, text=True, timeout=120,
+                                   env=dict(os.environ, PYTHONHASHSEED=seed))
+                outs.append(p)
+                if p.returncode != 0:
+                    break
+            if outs[-1].returncode != 0:
+                rac.fail(f"cross-process {kind}", f"C12 manager ({kind}) pickled under PYTHONHASHSEED=1 and restored under PYTHONHASHSEED=2: "
+                         + outs[-1].stderr.strip().splitlines()[-1][:400],
+                         PRELUDE + "import subprocess, sys, os, tempfile\nXP = " + repr(XP) + "\ntd = tempfile.mkdtemp(); sp = os.path.join(td, 'xp.py'); open(sp, 'w').write(XP)\n"
+                         f"for role, seed in (('dump', '1'), ('load', '2')):\n    subprocess.run([sys.executable, sp, {kind!r}, os.path.join(td, 'm.pkl'), role], check=True, env=dict(os.environ, PYTHONHASHSEED=seed))\n",
+                         "Manager")
     return rac.finish()
 
 
